@@ -146,6 +146,14 @@ def exec (s : St) (ws : List String) : St × List String :=
       | ["<", "v6", t] => ({ s with env := rest }, [s!"ip6 {q t} {q (v6IpPort t p)} port {p}"])
       | _ => (s, ["bad-env"])
     | _, _ => (s, ["bad-op"])
+  -- the same address with `sin6_scope_id` set (`InetAddress::setScopeId`): the text forms do not show a scope
+  | ["ip6", _, p, _scope] => match p.toNat?, s.env with
+    | some p, e :: rest =>
+      let p := p % 2 ^ 16
+      match words e with
+      | ["<", "v6", t] => ({ s with env := rest }, [s!"ip6 {q t} {q (v6IpPort t p)} port {p}"])
+      | _ => (s, ["bad-env"])
+    | _, _ => (s, ["bad-op"])
   | ["be", bits, x] => match bits.toNat?, x.toNat? with
     | some bits, some x =>
       if bits = 16 ∨ bits = 32 ∨ bits = 64 then
